@@ -29,6 +29,7 @@ let parse_op name args =
   | "flushwait" -> OFlushWait (b01 (a 0))
   | "staging" -> OStaging | "release" -> ORelease | "cleanup" -> OCleanup
   | "len" -> OLen | "size" -> OSize
+  | "storestep" -> OStoreStep (nn (a 0))
   | _ -> failwith ("unknown op " ^ name)
 
 let fmt_resp name r =
